@@ -284,7 +284,25 @@ def run():
             if pi < 2:
                 r.sample({"history": [g.edges[i][1] for i in p]})
         r.notes["spec_transitions_replayed"] = len(covered)
+        # a second parameter point: batches of 3, refill below 2 - here a login can generate a new batch WHILE keys of an earlier,
+        # unconfirmed upload are still waiting (impossible with batch 2 / threshold 1)
+        res3 = core.must_clean(core.tlc("PreKeys", "MC_PreKeys_b3.cfg", r.scratch, workers=16, timeout=3000), "MC_PreKeys_b3")
+        r.add_tlc(res3)
+        eg3 = core.tlc("PreKeys", "Edges_PreKeys_b3.cfg", r.scratch, workers=1, timeout=3000)
+        g3 = core.Graph(eg3.printed())
+        if len(g3.edges) < 300:
+            raise core.MachineryError("PreKeys (batch 3) edge dump too small (%d)" % len(g3.edges))
+        e2ekit.small_batches(3, 2)
+        p3 = g3.transition_cover(rng)
+        r.notes["cover_paths_batch3"] = len(p3)
+        p3 += g3.random_walks(600 if thorough else 100, 10, rng)
+        for p in p3:
+            replay_path(r, g3, p, roots, 9)
+            r.case(("b3",) + tuple(p))
+            r.cov["traces_validated_against_impl"] += 1
+        r.notes["spec_transitions_batch3"] = len(g3.edges)
     finally:
+        e2ekit.small_batches(BATCH, THRESHOLD)
         roots.close()
     r.assumptions += core.ENV_ASSUMPTIONS[:1] + ["batch size 2 / threshold 1 set through the manager's class attributes", "the server is the harness (stanzas injected at the control layer's lower side)",
                       "consumption is a real first message from a peer session built (with python-axolotl) from the uploaded bundle"]
